@@ -22,7 +22,7 @@ from typing import Any, Dict, List, Optional, Tuple
 
 from engine.srcmatch import U
 from engine.mathobj import NOTIMPL, SLOTS, Dispatcher, NeedAssume, Obj, ang_input, from_angle_entries, mat_input, vec_input
-from engine.model import AnalysisError, Program, dotted, resolve_method
+from engine.model import AnalysisError, Program, dotted, resolve_method, walk_no_nested
 from engine.poly import Opaque, Poly, PolyInterp, normal_form
 from engine.pyx import PyxFile, pyx_body_to_ast
 
@@ -233,6 +233,17 @@ def run(ctx: Any, prog: Program) -> None:
     a10_no_component_addition(ctx, mt)
     # A7 first: it needs no algebra, and its definite findings must be reported even when a later step declines
     a7_alias_safety(ctx, prog, mt, PyxFile(prog, '_math.pyx'))
+    # the two kernels apply one formula to every operand.  A branch on `<vector or matrix> == <something>` goes through VecBase.__eq__ /
+    # MatrixBase.__eq__, which accept differences up to 1e-6: operands that are merely *close* to the special value take the shortcut too
+    # (a vector of length 5e-7 "is the origin" and is not rotated), so rotation stops being linear
+    for kq in ('MatrixBase._mat_mul', 'MatrixBase._vec_rot'):
+        kf = mt.func(kq)
+        kparams = {a.arg for a in kf.args.args}
+        for t_ in [n for n in walk_no_nested(kf) if isinstance(n, (ast.If, ast.IfExp, ast.While))]:
+            fuzzy = [c for c in ast.walk(t_.test) if isinstance(c, ast.Compare) and any(isinstance(x, ast.Name) and x.id in kparams for x in [c.left] + c.comparators)
+                     and any(isinstance(o, (ast.Eq, ast.NotEq)) for o in c.ops)]
+            ctx.check('C04.A3', not fuzzy, mt, t_, f'{kq} branches on `{U(fuzzy[0])[:50] if fuzzy else ""}`: equality of vectors / matrices tolerates 1e-6 per component, so operands near the special value skip the formula '
+                      '(Vec(5e-7, 0, 0) @ from_yaw(90) stays on the x axis)', func=kq, text=f'{kq}: no branch on fuzzy operand equality')
     form, vform = extract_forms(prog)
     # ---- A3 ----------------------------------------------------------------------------------------
     std = standard_product()
@@ -999,6 +1010,7 @@ def analyse_to_angle(ctx: Any, rule: str, relpath: str, qual: str, body: List[as
 
 
 MUTANTS = [
+    {'id': 'vec_rot_skips_near_origin', 'file': 'math.py', 'find': "    def _vec_rot(self, vec: 'Vec') -> None:", 'replace': "    def _vec_rot(self, vec: 'Vec') -> None:\n        if vec == (0.0, 0.0, 0.0):\n            return", 'expect': 'C04.A3'},
     {'id': 'to_angle_pitch_by_asin', 'file': 'math.py', 'find': "        if horiz_dist > 0.001:\n            ang._yaw = math.degrees(math.atan2(for_y, for_x)) % 360.0 % 360.0\n            ang._pitch = math.degrees(math.atan2(-for_z, horiz_dist)) % 360.0 % 360.0", 'replace': "        if horiz_dist > 0.001:\n            ang._yaw = math.degrees(math.atan2(for_y, for_x)) % 360.0 % 360.0\n            ang._pitch = math.degrees(math.asin(-for_z)) % 360.0 % 360.0", 'expect': 'C04.A5'},
     {'id': 'imatmul_staged_pitch_backwards', 'file': 'math.py', 'find': '            self._mat_mul(Py_Matrix.from_angle(other))\n', 'replace': '            if other._roll != 0.0:\n                rad = math.radians(other._roll)\n                cos, sin = math.cos(rad), math.sin(rad)\n                self._ab, self._ac = self._ab * cos - self._ac * sin, self._ab * sin + self._ac * cos\n                self._bb, self._bc = self._bb * cos - self._bc * sin, self._bb * sin + self._bc * cos\n                self._cb, self._cc = self._cb * cos - self._cc * sin, self._cb * sin + self._cc * cos\n            if other._pitch != 0.0:\n                rad = math.radians(other._pitch)\n                cos, sin = math.cos(rad), math.sin(rad)\n                self._aa, self._ac = self._aa * cos - self._ac * sin, self._aa * sin + self._ac * cos\n                self._ba, self._bc = self._ba * cos - self._bc * sin, self._ba * sin + self._bc * cos\n                self._ca, self._cc = self._ca * cos - self._cc * sin, self._ca * sin + self._cc * cos\n            if other._yaw != 0.0:\n                rad = math.radians(other._yaw)\n                cos, sin = math.cos(rad), math.sin(rad)\n                self._aa, self._ab = self._aa * cos - self._ab * sin, self._aa * sin + self._ab * cos\n                self._ba, self._bb = self._ba * cos - self._bb * sin, self._ba * sin + self._bb * cos\n                self._ca, self._cb = self._ca * cos - self._cb * sin, self._ca * sin + self._cb * cos\n', 'expect': 'C04.A4'},
     {'id': 'ok_imatmul_staged_in_place', 'file': 'math.py', 'find': '            self._mat_mul(Py_Matrix.from_angle(other))\n', 'replace': '            if other._roll != 0.0:\n                rad = math.radians(other._roll)\n                cos, sin = math.cos(rad), math.sin(rad)\n                self._ab, self._ac = self._ab * cos - self._ac * sin, self._ab * sin + self._ac * cos\n                self._bb, self._bc = self._bb * cos - self._bc * sin, self._bb * sin + self._bc * cos\n                self._cb, self._cc = self._cb * cos - self._cc * sin, self._cb * sin + self._cc * cos\n            if other._pitch != 0.0:\n                rad = math.radians(other._pitch)\n                cos, sin = math.cos(rad), math.sin(rad)\n                self._ac, self._aa = self._ac * cos - self._aa * sin, self._ac * sin + self._aa * cos\n                self._bc, self._ba = self._bc * cos - self._ba * sin, self._bc * sin + self._ba * cos\n                self._cc, self._ca = self._cc * cos - self._ca * sin, self._cc * sin + self._ca * cos\n            if other._yaw != 0.0:\n                rad = math.radians(other._yaw)\n                cos, sin = math.cos(rad), math.sin(rad)\n                self._aa, self._ab = self._aa * cos - self._ab * sin, self._aa * sin + self._ab * cos\n                self._ba, self._bb = self._ba * cos - self._bb * sin, self._ba * sin + self._bb * cos\n                self._ca, self._cb = self._ca * cos - self._cb * sin, self._ca * sin + self._cb * cos\n', 'expect': None},
